@@ -11,9 +11,11 @@
   no handler; the body through Conn.Read = up to FIVE io.ReadFull attempts, each with a fresh deadline,
   continuing at p[n:] (conn.go:344-365).
 
-  Modelled as it is, including what happens when the fifth attempt times out inside a body that belongs
-  to a registered call: framer.readFrame wraps the error (fmt.Errorf, no longer a net.Error), recv hands it
-  to the call and CONTINUES reading headers in the middle of that body (conn.go:737-755).
+  When the fifth attempt times out inside a body that belongs to a registered call, framer.readFrame wraps
+  the net.Error with %w and recv finds it with errors.As: recv returns it, Conn.serve closes the connection
+  (the repair of KF-C01-1; before it the wrapped error was no longer a net.Error, recv handed it to the call
+  and CONTINUED reading "headers" in the middle of that body). Any other readFrame error (EOF, negative
+  length, compression) goes to the call and the loop continues, as before.
 -/
 namespace Rx
 
@@ -113,6 +115,8 @@ deriving DecidableEq, Repr
 inductive BodyRes where
   | ok
   | gaveUp    -- the body read ended with an error (five deadlines, or EOF)
+  | lost      -- registered call, the body read gave up on a read deadline: recv returns the error, the
+              -- connection is closed, nothing is handed to the call
   | negLen
   | comp      -- compressed flag, no compressor
 deriving DecidableEq, Repr
@@ -177,7 +181,7 @@ def recvLoop (proto : Nat) (dl : Bool) : Nat → Calls → Src → Out
                  else ⟨[⟨d, .ok, h, []⟩], .proto⟩
         | .negLen => ⟨[⟨d, .negLen, h, []⟩], .neg⟩
         | .comp => ⟨[⟨d, .comp, h, []⟩], .comp⟩
-        | .gaveUp => ⟨[⟨d, .gaveUp, h, []⟩], errStatus x.2.2.1⟩
+        | .gaveUp | .lost => ⟨[⟨d, .gaveUp, h, []⟩], errStatus x.2.2.1⟩   -- (readBody never answers `lost`)
       else
         match cs.find h.stream with
         | none =>
@@ -193,10 +197,12 @@ def recvLoop (proto : Nat) (dl : Bool) : Nat → Calls → Src → Out
               ⟨⟨.discard, .ok, h, []⟩ :: o.recs, o.status⟩
             | e => ⟨[⟨.discard, .gaveUp, h, []⟩], errStatus e⟩
         | some waiting =>
-          -- the call is taken out of c.calls; readFrame; whatever readFrame returned (it is never a
-          -- net.Error) goes to the call or, if the call has gone, the stream is released; recv returns nil
+          -- the call is taken out of c.calls; readFrame; a net.Error (the body read gave up on a read
+          -- deadline) ends the loop: `if errors.As(err, &netErr) { return err }`; whatever else readFrame
+          -- returned goes to the call or, if the call has gone, the stream is released; recv returns nil
           let x := readBody dl rest h
           let d := if waiting then Disp.call else Disp.gone
+          if x.1 = .gaveUp ∧ x.2.2.1 = .timeout then ⟨[⟨d, .lost, h, []⟩], .tmo⟩ else
           let o := recvLoop proto dl f (cs.erase h.stream) x.2.2.2
           ⟨⟨d, x.1, h, x.2.1⟩ :: o.recs, o.status⟩
 
@@ -292,6 +298,7 @@ def Rec.text (r : Rec) : String :=
   | .gone, _ => "R:" ++ r.h.text
   | .call, .ok => "D:" ++ r.h.text ++ ":" ++ hex32 (fnv32 r.body)
   | .call, .gaveUp => "B:" ++ r.h.text
+  | .call, .lost => "?:" ++ r.h.text
   | .call, .negLen => "N:" ++ r.h.text
   | .call, .comp => "C:" ++ r.h.text
 
